@@ -6,6 +6,7 @@ cd /verif
 N=${N:-4}
 ALL=$(for i in $(seq 1 20); do printf "C%02d " $i; done)
 ls -d refactors/C*-* > /tmp/xref.list
+rm -f /tmp/xref.out.* /tmp/xref.part.*
 split -n l/$N -d /tmp/xref.list /tmp/xref.part.
 worker() {
   k=$1
